@@ -2,8 +2,12 @@ package props
 
 import (
 	"fmt"
+	"sort"
+	"strings"
+	"sync/atomic"
 	"testing"
 
+	"github.com/openziti/storage/boltz"
 	"go.etcd.io/bbolt"
 	"pgregory.net/rapid"
 
@@ -57,11 +61,73 @@ func genC15(t *rapid.T) kit.History {
 	})
 }
 
+// c15Rule is a rule of the parent store about the state an entity ends up in (registered on the parent store only, the
+// child stores have no constraints or listeners of their own): no entity may carry the note "forbidden".
+type c15Rule struct{ withoutState atomic.Int32 }
+
+const c15Forbidden = "forbidden"
+
+func (r *c15Rule) ProcessPreCommit(state *boltz.EntityChangeState[*kit.Ent]) error {
+	if state.ChangeType.IsDelete() {
+		return nil
+	}
+	if state.FinalState == nil {
+		r.withoutState.Add(1)
+		return nil
+	}
+	if state.FinalState.Note == c15Forbidden {
+		return fmt.Errorf("rule of the parent store: the note %q is not allowed (entity %s)", c15Forbidden, state.EntityId)
+	}
+	return nil
+}
+
+func (r *c15Rule) ProcessPostCommit(*boltz.EntityChangeState[*kit.Ent]) {}
+
 func runC15(h kit.History) kit.Result {
 	res := kit.Result{Sub: len(h.Txs)}
 	extended := h.Cfg.Children[0].Extended
 	res.Classes = append(res.Classes, fmt.Sprintf("extended:%v", extended), fmt.Sprintf("child-index:%v", h.Cfg.Children[0].UniqueExtra), fmt.Sprintf("child-stores:%d", len(h.Cfg.Children)))
-	st, err := kit.RunHistory(h, func(w *kit.World, m *kit.Model, i int, tx kit.TxSpec, out kit.TxOutcome) error {
+	rule := &c15Rule{}
+	probes := 0
+	st, err := kit.RunHistorySetup(h, func(w *kit.World) { w.Stores["emps"].AddEntityConstraint(rule) }, func(w *kit.World, m *kit.Model, i int, tx kit.TxSpec, out kit.TxOutcome) error {
+		if n := rule.withoutState.Load(); n > 0 {
+			return fmt.Errorf("the parent store's rule was asked about %d create/update(s) without being given the state the entity ends up in", n)
+		}
+		if i%4 == 3 {
+			// the parent store's rule binds every entity, through whichever store the update comes
+			ids := make([]string, 0, len(m.Ents["emps"]))
+			for id := range m.Ents["emps"] {
+				ids = append(ids, id)
+			}
+			sort.Strings(ids)
+			for _, id := range ids {
+				e := m.Ents["emps"][id]
+				routes := []string{"emps"}
+				for _, cc := range h.Cfg.Children {
+					if _, has := e.Kid[cc.Name]; has {
+						routes = append(routes, cc.Name)
+					}
+				}
+				for _, route := range routes {
+					for _, kind := range []string{"update", "patch"} {
+						op := kit.Op{Kind: kind, Store: route, ID: id, Fields: []string{kit.FNote},
+							Spec: &kit.EntSpec{Name: e.Name, Alias: e.Alias, Roles: e.Roles, Note: c15Forbidden, Ref: e.Ref, Serial: e.Serial, TagV: e.TagV, Extra: e.Kid[route]}}
+						before := w.Dump()
+						err := w.Z.Db.Update(kit.NewCtx(), func(ctx boltz.MutateContext) error {
+							_, err := w.Exec(ctx, op)
+							return err
+						})
+						if err == nil || !strings.Contains(err.Error(), "rule of the parent store") {
+							return fmt.Errorf("%s, which gives %s/%s (child data in %v) a note the parent store's rule forbids, was not refused by that rule (error: %v)", op, "emps", id, routes[1:], err)
+						}
+						if d := kit.DiffDumps(before, w.Dump()); d != "" {
+							return fmt.Errorf("%s was refused by the parent store's rule but changed the database:\n%s", op, d)
+						}
+						probes++
+					}
+				}
+			}
+		}
 		if !out.Committed {
 			return nil
 		}
@@ -127,6 +193,9 @@ func runC15(h kit.History) kit.Result {
 	}
 	if st.SkippedOps > 0 {
 		res.Classes = append(res.Classes, "has-skipped-unspecified-op")
+	}
+	if probes > 0 {
+		res.Classes = append(res.Classes, "parent-rule-probed")
 	}
 	return res
 }
